@@ -513,6 +513,10 @@ def gen_nest(rng, force_malformed=None):
     malformed = rng.random() < 0.25 if force_malformed is None else force_malformed
     victim = rng.randrange(len(par))
     defect = rng.choice(["bad", "bad", "noname", "dupsib", "empty"]) if malformed else None
+    if defect == "dupsib":
+        wide = [i for i in range(len(par)) if len(ch[i]) >= 2]
+        if wide:
+            victim = rng.choice(wide)
 
     def node(i):
         entries = [[name_key, names[i]]]
@@ -727,7 +731,15 @@ def sample(prop, case, obs):
 
 
 def partial_clauses(prop):
-    return []
+    return [
+        "acceptance is proved for the relations of every valid tree in every row order (C13_relation_of_tree, "
+        "C13_row_order); that every row list passing the boolean test `presents_tree` of Spec/PC13.v is accepted has no "
+        "theorem - that clause of prop_rel is only evaluated on every implementation output",
+        "nested dictionaries outside the documented form (missing name, non-list children, repeated sibling names): "
+        "that they are refused is checked by the correspondence only (the property does not speak about them)",
+        "pandas / polars / list entry points are one model function on a row list; the frame glue is covered by the "
+        "correspondence only",
+    ]
 
 
 def trusted_base(prop):
